@@ -187,7 +187,7 @@ def enum_table(tier):
                         yield {"step": step, "state": state, "err": err, "subset": subset, "order": order, "decode": style, "k": SEED * 31 + (i % 5)}
 
 
-from props.ble_layers import C04_BLE_LAYERS  # noqa: E402
+from props.ble_layers import C04_BLE_LAYERS, C04_IP_LAYERS  # noqa: E402
 
 SPEC = Property(
     P, "fault_enumeration",
@@ -200,6 +200,7 @@ SPEC = Property(
         Layer("protocol-table", run_cell, enumerate=enum_table, exhaustive=True,
               space="5 steps x 9 states x 13 errors x 2^|other fields| x 4 (order, decode) combinations (quick: 2 combinations for setup M4/M6)", min_nontrivial=3000),
         *C04_BLE_LAYERS,
+        *C04_IP_LAYERS,
     ],
     assumptions=["fields not defined for a step are not generated before State/Error (tests/test_protocol_tlv.py::test_filter pins the "
                  "expected-filter as stop-at-first-unexpected)",
